@@ -96,6 +96,17 @@ Example C18_infer_field_order_nonvacuous : forall bn, exists fields d, infer_at 
 Proof. exact ex_mixed_class. Qed.
 Print Assumptions C18_infer_field_order_nonvacuous.
 
+(* hypothesis (b) cannot be dropped, not even "up to the order of the fields": 1.a 2.b:int and
+   2.b:int 1.a have the same plain columns and the same sub-headers under every prefix, but an
+   inferred list takes the type of its LAST integer-keyed entry *)
+Example C18_prefix_order_matters : forall bn,
+  plain_of bn ex_swap1 = plain_of bn ex_swap2
+  /\ (forall k, subs_of bn k ex_swap1 = subs_of bn k ex_swap2)
+  /\ infer_at bn ex_swap1 = Ok (TList (TRec [([98]%N, (TInt, VInt 0))]), VList [VRec [([97]%N, VStr [])]; VRec [([98]%N, VInt 0)]])
+  /\ infer_at bn ex_swap2 = Ok (TList (TRec [([97]%N, (TStr, VStr []))]), VList [VRec [([97]%N, VStr [])]; VRec [([98]%N, VInt 0)]]).
+Proof. exact prefix_order_matters. Qed.
+Print Assumptions C18_prefix_order_matters.
+
 (* 4. "every row then parses to the same nested data that the hand-written model would give":
       (1) is an equality of models, so this holds for ANY row parser whatsoever (any function of
       the model and the row).  The Gallina RowParser of Row/RowParse.v works over the universe of
